@@ -28,6 +28,9 @@ Definition nthq (l : vec) (i : Z) : Qc := nth (Z.to_nat i) l (qz 0).
 Definition vsum (l : vec) : Qc := fold_right Qcplus (qz 0) l.
 Definition vlen (l : vec) : Z := Z.of_nat (length l).
 
+(** np.max (of a non-empty list; the empty list is a precondition violation, read as 0) *)
+Definition max1 (l : vec) : Qc :=
+  match l with nil => qz 0 | x :: r => fold_left (fun m y => if Qcleb m y then y else m) r x end.
 (** np.mean *)
 Definition mean1 (l : vec) : Qc := (vsum l / qz (vlen l))%Qc.
 (** np.median: middle order statistic, or the mean of the two middle ones *)
@@ -228,8 +231,10 @@ Fixpoint in_rangeb (sh idx : list Z) : bool :=
   | _, _ => false
   end.
 Definition nd_memo (A : nd) : nd :=
-  let l := ravel A in
-  mk_nd (shape A) (fun idx => if in_rangeb (shape A) idx then nthq l (flat_index (shape A) idx 0) else get A idx).
+  if forallb (fun d => 0 <=? d) (shape A) then
+    let l := ravel A in
+    mk_nd (shape A) (fun idx => if in_rangeb (shape A) idx then nthq l (flat_index (shape A) idx 0) else get A idx)
+  else A.
 
 (** * the method names offered by estimate_loc / estimate_scale / estimate_zscore *)
 Inductive loc_method := L_median | L_mean | L_norm | L_other.
@@ -244,6 +249,8 @@ Definition scale_method_eqb (a b : scale_method) : bool :=
   | _, _ => false end.
 (** exact decimal literal  m * 10^-e *)
 Definition qdec (m : Z) (e : Z) : Qc := Q2Qc (m # Z.to_pos (10 ^ e)).
+(** np.finfo(np.float32).eps = 2^-23 *)
+Definition float32_eps : Qc := Q2Qc (1 # 8388608).
 (** v[:-1], v[1:] *)
 Definition vinit (l : vec) : vec := removelast l.
 Definition vtail (l : vec) : vec := tl l.
